@@ -377,7 +377,7 @@ func c09e(c *Ctx) {
 	if rs := c.Fn("lexer.Lexer.readString"); rs != nil {
 		ok := false
 		for _, w := range c.sitesOf(rs) {
-			if w.konst && w.format == "\n" && w.method == "WriteString" {
+			if w.konst && w.format == "\n" && strings.HasPrefix(w.method, "Write") {
 				ok = true
 			}
 		}
